@@ -337,35 +337,190 @@ def handoff(check, prog):
                   'accepted classes %s all have a branch, every other class is '
                   'refused by both (%d classes)' % (accepted, len(classes)), loc,
                   fail_detail='; '.join(disagree[:4]))
-    # _run_tmat packs [[s11, s12], [s21, s22]] transposed -> (N, 2, 2)
-    q2 = TMATRIX + '._run_tmat'
+    # the per-point 2 x 2 blocks: which ampld output sits where
+    sphere_limit(check, prog)
+
+
+
+# ----------------------------------------------------------------------
+def _mat2(rows):
+    return [[rows[0][0], rows[0][1]], [rows[1][0], rows[1][1]]]
+
+
+def _matmul2(A, B):
+    return [[intern(('bin', '+', ('bin', '*', A[i][0], B[0][j]),
+                     ('bin', '*', A[i][1], B[1][j]))) for j in range(2)] for i in range(2)]
+
+
+def _mat_of(t, env):
+    """Evaluate a term denoting a 2 x 2 matrix: literal arrays, the per-point block
+    `env['block_term']`, products (numpy.dot / matmul / @) and transposes."""
+    if t[0] == 'call' and t[1] in ('numpy.array', 'numpy.asarray') and t[2] and \
+            t[2][0][0] == 'list' and len(t[2][0][1]) == 2 and \
+            all(r[0] == 'list' and len(r[1]) == 2 for r in t[2][0][1]):
+        return _mat2([list(r[1]) for r in t[2][0][1]])
+    if t[0] == 'list' and len(t[1]) == 2 and all(r[0] == 'list' and len(r[1]) == 2
+                                                  for r in t[1]):
+        return _mat2([list(r[1]) for r in t[1]])
+    if t == env.get('block_term'):
+        return env['block']
+    if t[0] == 'call' and t[1] in ('numpy.dot', 'numpy.matmul') and len(t[2]) == 2:
+        A, B = _mat_of(t[2][0], env), _mat_of(t[2][1], env)
+        return None if A is None or B is None else _matmul2(A, B)
+    if t[0] == 'bin' and t[1] == '@':
+        A, B = _mat_of(t[2], env), _mat_of(t[3], env)
+        return None if A is None or B is None else _matmul2(A, B)
+    tr = None
+    if t[0] == 'attr' and t[2] == 'T':
+        tr = t[1]
+    elif t[0] == 'call' and isinstance(t[1], tuple) and t[1][0] == 'attr' and \
+            t[1][2] == 'transpose' and not t[2]:
+        tr = t[1][1]
+    elif t[0] == 'call' and t[1] == 'numpy.transpose' and len(t[2]) == 1:
+        tr = t[2][0]
+    if tr is not None:
+        A = _mat_of(tr, env)
+        return None if A is None else [[A[0][0], A[1][0]], [A[0][1], A[1][1]]]
+    return None
+
+
+def sphere_limit(check, prog):
+    """E8: for a sphere, what Tmatrix hands on is the Lorenz-Mie amplitude matrix.
+
+    ampld returns the amplitude matrix in the laboratory frame: for incidence
+    along +z with phi0 = 0 it maps the incident (x, y) components to the scattered
+    (theta, phi) components.  For a sphere (Mishchenko, Travis & Lacis, ch. 4/5;
+    checked numerically against the compiled code, DESIGN section 5)
+        S_lab = diag(S2, S1) . [[cos phi, sin phi], [-sin phi, cos phi]].
+    Mie.raw_scat_matrs, Lens and mieangfuncs.calc_scat_field work with the matrix
+    relative to the scattering plane, diag(S2, S1).  Substituting the sphere form
+    for the four ampld outputs, (a) the per-point block returned by raw_scat_matrs
+    and (b) the matrix raw_fields passes to calc_scat_field must both reduce to
+    diag(S2, S1) at *every* azimuth (cos^2 + sin^2 = 1 is the only identity used)."""
+    from hpstatic.poly import Canon
+    q = TMATRIX + '._run_tmat'
+    fd = prog.func(q)
+    loc = prog.loc(q, fd)
     it = Interp(prog, max_depth=2)
-    r = it.analyze(q2)
-    t = r.ret
-    fd2 = prog.func(q2)
-    ok = False
-    # full axis reversal, in any of its spellings
+    t = it.analyze(q).ret
+    # (N, 2, 2) from the (2, 2, N) literal: full axis reversal transposes each
+    # block, moving the last axis first does not
+    blockT = None
     arr = None
-    if t[0] == 'call' and isinstance(t[1], tuple) and t[1][0] == 'attr' and \
-            t[1][2] == 'transpose' and not t[2] and not t[3]:
+    perm = (num(2), num(0), num(1))
+    if (t[0] == 'call' and isinstance(t[1], tuple) and t[1][0] == 'attr' and
+            t[1][2] == 'transpose' and not t[3]):
         arr = t[1][1]
+        if not t[2]:
+            blockT = True
+        elif tuple(t[2]) == perm or (len(t[2]) == 1 and t[2][0] in (
+                ('tuple', perm), ('list', perm))):
+            blockT = False
     elif t[0] == 'attr' and t[2] == 'T':
-        arr = t[1]
+        arr, blockT = t[1], True
     elif t[0] == 'call' and t[1] == 'numpy.transpose' and len(t[2]) == 1 and not t[3]:
-        arr = t[2][0]
-    if arr is not None:
-        if arr[0] == 'call' and arr[1] == 'numpy.array' and arr[2] and \
-                arr[2][0][0] == 'list' and len(arr[2][0][1]) == 2:
-            rows = arr[2][0][1]
-            names = []
-            for row in rows:
-                if row[0] == 'list' and len(row[1]) == 2:
-                    for x in row[1]:
-                        idx = [y for y in subterms(x) if y[0] == 'idx']
-                        names.append(idx[-1][2][1] if idx and idx[-1][2][0] == 'num'
-                                     else None)
-            ok = names == [0, 1, 2, 3]
-    check.require(ok, 'E5-pack-2x2', 'Tmatrix._run_tmat',
-                  'scat_matr[i] = [[s11, s12], [s21, s22]] (outputs 0..3 of ampld, '
-                  'transposed to point-major)', prog.loc(q2, fd2),
-                  fail_detail='packing is %s' % show(t)[:200])
+        arr, blockT = t[2][0], True
+    elif t[0] == 'call' and t[1] == 'numpy.moveaxis' and len(t[2]) == 3 and \
+            t[2][1] in (num(-1), num(2)) and t[2][2] == num(0):
+        arr, blockT = t[2][0], False
+    names = None
+    if arr is not None and arr[0] == 'call' and arr[1] == 'numpy.array' and arr[2] and \
+            arr[2][0][0] == 'list' and len(arr[2][0][1]) == 2:
+        names = []
+        for row in arr[2][0][1]:
+            if row[0] == 'list' and len(row[1]) == 2:
+                for x in row[1]:
+                    idx = [y for y in subterms(x) if y[0] == 'idx' and y[2][0] == 'num' and
+                           y[1][0] == 'call' and str(y[1][1]).endswith('ampld')]
+                    names.append(int(idx[-1][2][1]) if idx else None)
+    if blockT is None or names is None or len(names) != 4 or None in names:
+        check.bad('E8-sphere-limit', 'Tmatrix._run_tmat',
+                  'cannot read the per-point 2 x 2 blocks off the returned array: %s'
+                  % show(t)[:160], loc)
+        return
+    d1, d2, c, s_ = sym('S2'), sym('S1'), sym('c'), sym('s')
+    neg = lambda x: intern(('un', '-', x))
+    mul = lambda x, y: intern(('bin', '*', x, y))
+    out = {0: mul(d1, c), 1: mul(d1, s_), 2: neg(mul(d2, s_)), 3: mul(d2, c)}
+    M = [[out[names[0]], out[names[1]]], [out[names[2]], out[names[3]]]]
+    block = [[M[0][0], M[1][0]], [M[0][1], M[1][1]]] if blockT else M
+    canon = Canon()
+
+    def is_diag(A):
+        want = [[d1, num(0)], [num(0), d2]]
+        return all(_vanishes_on_circle(canon, intern(('bin', '-', A[i][j], want[i][j])),
+                                       c, s_) for i in range(2) for j in range(2))
+    fmt = lambda A: '[[%s, %s], [%s, %s]]' % tuple(canon.show(x)[:40] for r in A for x in r)
+    key = lambda A: ' '.join(canon.show(x).replace(' ', '') for r in A for x in r)
+    check.require(is_diag(block), 'E8-sphere-limit',
+                  'Tmatrix.raw_scat_matrs block' + (
+                      '' if is_diag(block) else ' = ' + key(block)),
+                  'for a sphere the per-point matrix is diag(S2, S1) at every azimuth, '
+                  'as from Mie.raw_scat_matrs', loc,
+                  fail_detail='with the sphere form of the ampld outputs the block is %s '
+                  '(c = cos phi, s = sin phi): calc_scat_matrix and Lens(Tmatrix) see a '
+                  'matrix that depends on the azimuth' % fmt(block))
+    # (b) raw_fields
+    q2 = TMATRIX + '.raw_fields'
+    fd2 = prog.func(q2)
+    loc2 = prog.loc(q2, fd2)
+    it2 = Interp(prog, max_depth=1, opaque=[TMATRIX + '.raw_scat_matrs'])
+    it2.analyze(q2)
+    cs = [c_ for c_ in it2.calls if c_['name'].endswith('calc_scat_field')]
+    if len(cs) != 1 or len(cs[0]['args']) < 3:
+        check.bad('E8-sphere-limit', 'Tmatrix.raw_fields',
+                  'no single calc_scat_field(kr, phi, S, pol) call', loc2)
+        return
+    phi = cs[0]['args'][1]
+    Sarg = cs[0]['args'][2]
+    blk = [x for x in subterms(Sarg) if x[0] == 'idx' and x[1][0] == 'call' and
+           isinstance(x[1][1], tuple) and x[1][1][0] == 'attr' and
+           x[1][1][2] == 'raw_scat_matrs']
+    cosp = intern(('call', 'numpy.cos', (phi,), ()))
+    sinp = intern(('call', 'numpy.sin', (phi,), ()))
+
+    def to_cs(x):
+        if x == cosp:
+            return c
+        if x == sinp:
+            return s_
+        if isinstance(x, tuple):
+            return tuple(to_cs(y) if isinstance(y, tuple) else y for y in x)
+        return x
+    A = None
+    if blk:
+        env = {'block_term': intern(to_cs(blk[0])), 'block': block}
+        A = _mat_of(intern(to_cs(Sarg)), env)
+    if A is None:
+        check.bad('E8-sphere-limit', 'Tmatrix.raw_fields',
+                  'cannot evaluate the matrix handed to calc_scat_field: %s'
+                  % show(Sarg)[:160], loc2)
+        return
+    check.require(is_diag(A), 'E8-sphere-limit',
+                  'Tmatrix.raw_fields matrix' + ('' if is_diag(A) else ' = ' + key(A)),
+                  'for a sphere the matrix handed to calc_scat_field is diag(S2, S1) at '
+                  'every azimuth (the rotation to the scattering plane undoes the '
+                  'laboratory-frame azimuth dependence)', loc2,
+                  fail_detail='with the sphere form of the ampld outputs it is %s: equal '
+                  'to diag(S2, S1) only where sin(phi) = 0 or S1 = S2' % fmt(A))
+
+
+def _vanishes_on_circle(canon, t, c, s_):
+    """t (a polynomial in c, s and other atoms) is identically zero on c^2+s^2=1:
+    every even power of s is rewritten by s^2 -> 1 - c^2, then compared with 0."""
+    r = canon.rat(t)
+    total = num(0)
+    for mono, coef in r.num.items():
+        term = num(coef)
+        for a_, e_ in mono:
+            if a_ == s_:
+                k, rem = divmod(int(e_), 2)
+                for _ in range(k):
+                    term = intern(('bin', '*', term, ('bin', '-', num(1), ('bin', '*', c, c))))
+                if rem:
+                    term = intern(('bin', '*', term, s_))
+            else:
+                p_ = a_ if e_ == 1 else intern(('bin', '**', a_, num(e_)))
+                term = intern(('bin', '*', term, p_))
+        total = intern(('bin', '+', total, term))
+    return canon.equal(total, num(0))
